@@ -69,6 +69,8 @@ def run_case(case, ctx):
     opts.update(dtype_amps=['float64', 'float32'][int(rng.integers(0, 2))],
                 dtype_templates=['float32', 'float32', 'float64'][int(rng.integers(0, 3))],
                 dtype_feat=['float32', 'float64'][int(rng.integers(0, 2))])
+    opts['probes'] = case['seed'][-1] % 3 == 1            # a probe table says nothing about a template's channels (shanks do)
+    opts['exact_amps'] = case['seed'][-1] % 5 == 2        # every template has an exactly silent channel and one at exactly half the peak
     if case['seed'][-1] % 25 == 7:
         # narrow id dtype with far-away cluster ids: products of ids beyond 16 bits, on every run
         opts.update(dtype_ids='uint16', far_ids=14000, nt=6, ns=max(opts['ns'], 40), clusters='curated', curation_ops=6, spikeless='none')
